@@ -39,7 +39,7 @@ PARSER_TREES = {
                 prefix='[', suffix='', opts=STRICT, maxlen={'quick': 5, 'thorough': 6}),
     # numbers: transition cover of the RFC 8259 number automaton and its followers
     'num': dict(alpha=toks('-', '+', '0', '1', '9', '.', 'e', 'E', ',', ']', ' ', 'x', '"'),
-                prefix='[', suffix='', opts=STRICT, maxlen={'quick': 6, 'thorough': 8}),
+                prefix='[', suffix='', opts=STRICT, maxlen={'quick': 6, 'thorough': 7}),
     # top-level numbers (follower context: whitespace / end of input only)
     'numtop': dict(alpha=toks('-', '0', '7', '.', 'e', '+', ' ', '\t', ',', ']', '}'),
                    prefix='', suffix='', opts=STRICT, maxlen={'quick': 6, 'thorough': 7}),
